@@ -441,7 +441,15 @@ def check_library_wrong_params(run, only=None):
         run.count('library_wrong')
         ok = (obs['harness'] is None and obs['ready'] is True
               and obs['error'] is None and obs['follow'] == 'accepted' and obs['output'] == want)
-        run.add_obligation(ok)
+        clause = 'library_wrong_params:' + ('output_missing_item' if name.startswith('output_missing_item') else name)
+        # an instance of a finding LISTED as open is reported as such (KNOWN-FINDING) and is not an
+        # obligation of this run (as in common.evaluate); unlisted, it is a violation like any other
+        listed = clause in {f.get('match', {}).get('clause') for f in common.load_findings(run.prop)
+                            if f.get('status') == 'open'}
+        if ok or not listed:
+            run.add_obligation(ok)
+        else:
+            run.count('instances_of_listed_findings')
         if not ok:
             run.violation('monitor', dict(case=dict(library_wrong=name), observed=obs),
                           f"external event '{etype}' with data {data} sent to a library block: sender got "
@@ -449,8 +457,7 @@ def check_library_wrong_params(run, only=None):
                           f"follow-up {follow} was {obs['follow']}, output afterwards {obs['output']!r} "
                           f"(expected: simulation running, follow-up accepted, "
                           f"output {want!r}); harness: {obs['harness']}",
-                          clause='library_wrong_params:' + ('output_missing_item' if name.startswith(
-                              'output_missing_item') else name), concrete=True)
+                          clause=clause, concrete=True)
 
 
 def check_no_event_during_init(run, only=None):
